@@ -953,7 +953,7 @@ class Gen:
                 regions.append((base, size))
             extra = []
             for _r in range(rng.below(4)):
-                base = rng.choice(bases + [threads[0][1] + max(0, threads[0][2] - rng.below(9))])
+                base = min(M, rng.choice(bases + [threads[0][1] + max(0, threads[0][2] - rng.below(9))]))
                 size = rng.choice(sizes)
                 if base + size > M + 1:
                     size = M + 1 - base
@@ -1115,7 +1115,7 @@ class C03(PropBase):
     coq_dirs = ["Base", "C08", "C03"]      # C05 / C11 / Gen are imported (other owners): their own gates scan them
     translators = ["c03_sites.py"]
     bins = ["c03"]
-    impl_timeout = 1500
+    impl_timeout = 3000        # wall-clock backstop of the runner for a whole shard; hangs are ended per case by the CPU watchdogs
     impl_mem_gb = 4
     rule = ("D cases: a dump synthesized from a structured spec (11 CPU kinds x 11 platform ids; threads with pointer-laced, empty, "
             "overlapping or top-of-address-space stacks; hostile module / unloaded-module lists; exception records incl. missing "
@@ -1189,10 +1189,10 @@ class C03(PropBase):
     def gen_cases(self, tier, seed):
         rng = Rng(seed)
         g = Gen(rng)
-        nd, nf, ns = (9000, 1500, 6000) if tier == "quick" else (120000, 12000, 60000)
+        nd, nf, ns = (9000, 1500, 6000) if tier == "quick" else (70000, 8000, 40000)
         cases = g.site_cases(ns)
-        cases += g.thread_cases(1500 if tier == "quick" else 20000)
-        cases += g.nearby_cases(500 if tier == "quick" else 6000)
+        cases += g.thread_cases(1500 if tier == "quick" else 12000)
+        cases += g.nearby_cases(500 if tier == "quick" else 4000)
         cases += g.info_new_cases(100 if tier == "quick" else 1000)
         # exhaustive block 1: amd64 instruction bytes at the crashing rip, generated from the opcode / ModRM table —
         # every opcode byte of the one-byte and 0f maps x every ModRM reg field (group opcodes select the operation with
@@ -1213,7 +1213,7 @@ class C03(PropBase):
             cases.append(g.dump_case())
         for _ in range(nf):
             cases.append(g.file_case())
-        nb = 700 if tier == "quick" else 10000
+        nb = 700 if tier == "quick" else 6000
         for _ in range(nb):
             cases.append(g.bitflip_case())
         g.dist["D_bitflip"] = nb
@@ -1263,7 +1263,7 @@ class C03(PropBase):
             return "unparseable answer " + ans[:100]
         d = parse_kv(ans)
         if d.get("r") == "timeout":
-            return "processing did not finish within 200 s (wall clock)"
+            return "processing did not finish within 3000 s of wall clock although it stayed within its CPU budget (it waits without computing)"
         if d.get("fb") != "1":
             return "a thread was walked for %s frames with only %s stack bytes (bound: bytes + 2)" % tuple(d.get("fr", "?/?").split("/"))
         # CPUs without an unwinder (get_caller_frame's `_ => None` arm): the context frame and nothing else
@@ -1273,8 +1273,8 @@ class C03(PropBase):
         peak, insz, ms = int(d.get("peak", 0)), int(d.get("in", 0)), int(d.get("ms", 0))
         if peak > (64 << 20) + 20000 * insz:
             return "peak heap %d bytes for %d input bytes exceeds the budget 64 MiB + 20000 x input" % (peak, insz)
-        if ms > 400000:
-            return "case took %d ms (wall clock)" % ms
+        # no wall-clock clause: on a machine with a load average of 175 (thorough run of round 5) a legitimate 3.5 s case took 537 s
+        # of wall clock; time is judged as CPU time below, a case that waits without computing is ended by the harness's backstops
         # time tied to the input size, measured as CPU time of the processing thread (independent of machine load);
         # the harness's CPU watchdog ends a case that exceeds the same budget while it is still running
         cpu = int(d.get("cpu", 0))
